@@ -111,6 +111,12 @@ add('C08',
     'Does not compare with symtable on programs; comprehension targets and except-clause names are set aside by the property.',
     'DESIGN.md section 4, C08')
 
+add('C19',
+    'set-algebra evaluation of _TypeMap.__or__ and of type_inference.Analyzer.visit_node to membership formulas with truth-table bounds (new symbols in, stale rebinding out, untouched symbols through); dominating-decision formulas showing every combining visitor returns None before the resolver when an operand is unknown; CFG must-pass-through of the rtype restore; grow-only check of closure types; shared join / flag / driver rules; ASDL field typing',
+    'Decides the mechanism that makes the reported sets over-approximate: join over all predecessors; the map join is a per-symbol union that never removes a type; the outgoing map is a copy of the incoming one in which assigned symbols are overwritten and symbols rebound without a known type are forgotten (the unchanged tree kept them: fixed, F17); unknown operand implies unknown result in BinOp/UnaryOp/Compare/Subscript/Tuple; unpacking restores the assigned type; closure types only grow and are recorded at every statement mentioning the function; revisit flag and driver.',
+    'Soundness also depends on the resolver answering truthfully and on the CFG/scope analyses (C05, C08); nothing is executed.',
+    'DESIGN.md section 4, C19')
+
 NOT_APPLICABLE = {
     'C12': 'quantifies over run-time tracebacks, generated line layout and source-map contents, which exist only after the pipeline has run on a program; the only shape-level clause (exception re-creation table) is too small a part to claim the property through (DESIGN.md section 5)',
 }
